@@ -54,3 +54,4 @@ pub assume_specification<T: Ord> [<[T]>::binary_search] (s: &[T], x: &T) -> (r: 
         r matches Ok(i) ==> i < s@.len() && vstd::std_specs::cmp::OrdSpec::cmp_spec(&s@[i as int], x) is Equal,
         r matches Err(i) ==> i <= s@.len(),
         <T as vstd::std_specs::cmp::OrdSpec>::obeys_cmp_spec() && sorted_by_cmp(s@) ==> (r is Err ==> forall|i: int| 0 <= i < s@.len() ==> !(vstd::std_specs::cmp::OrdSpec::cmp_spec(&(#[trigger] s@[i]), x) is Equal));
+
